@@ -4,6 +4,11 @@
   the gating storage wrapper (harness suite `backend`, ops start/step). The transition function is
   KB.Sys.act — the object the C01/C02/C04/C09 theorems are about; the sequencer is run eagerly after
   every action, as the free-running goroutine does.
+  The async retry loop: un-stepped (`retry [f=]` = `Action.retry f`, one whole `retry()`), or — cfg
+  `retrysteps=1` — stepped as pseudo client `R`: `retry` releases it to its first storage call (`at R iter`),
+  `step R` = `Action.retryRead` (`at R commit`, or `done R retry unnecessary`), `step R [f=]` =
+  `Action.retryCommit f` (`done R retry success|failed_put|unknown_put`), with client requests in between.
+  Un-stepped requests (`create` / `update` / `delete [f=..]`) run all the steps of a fresh client back to back.
 -/
 import KB.Sys
 import KB.Driver.Util
@@ -38,6 +43,15 @@ structure State where
   /-- (oldVal, modRev) a delete carried when it committed, for rendering its response -/
   delOld : List (Nat × Bytes × Nat) := []
   reads : List (Nat × PendingRead) := []
+  /-- cfg retrysteps=1: the retry loop's storage calls are stepped -/
+  retrySteps : Bool := false
+  /-- the retry loop: 0 = at the top of `retry()` (parked at the hook gate when its queue is not empty),
+  1 = released, at its read (`at R iter`), 2 = at its commit (`at R commit`) -/
+  rStage : Nat := 0
+  /-- watchers: (id, prefix, number of emitted events already looked at) -/
+  watchers : List (Nat × Bytes × Nat) := []
+  /-- next identifier of an un-stepped request -/
+  nextId : Nat := 1000000
   deriving Repr
 
 def init : State := {}
@@ -103,14 +117,41 @@ def parseReq (toks : List String) : Option ReqKind :=
   | ["delete", k, e] => some (.delete (unhx k) (atou e))
   | _ => none
 
-def viewB (g : G) : BState := { store := g.store, dealt := g.dealt, committed := g.committed, ring := Ring.new 1 }
+def viewB (g : G) : BState :=
+  { store := g.store, dealt := g.dealt, committed := g.committed, ring := Ring.new 1, retryQ := g.retryQ }
 
-def step (st : State) (toks : List String) : State × String :=
+/-- An un-stepped request: all the steps of client `id`, back to back (the sequencer eager in between). The fault
+directives are consumed, in order, by the commits whose conditions hold (a commit whose condition fails answers
+with the engine's own verdict and leaves the directive pending). -/
+def runSeq (st : State) (id : Nat) : Nat → List Fault → State
+  | 0, _ => st
+  | n + 1, fs =>
+    match st.g.client id with
+    | none => st
+    | some c =>
+      let holds := gateOf c == some "commit" && (act st.g (.step id Fault.none)).wlog.length != st.g.wlog.length
+      let (f, fs') := if holds then nextFault fs else (Fault.none, fs)
+      let delOld := match c.pc with
+        | .deleteCommit _ v m => (id, v, m) :: st.delOld.filter (·.1 != id)
+        | _ => st.delOld
+      let g := act st.g (.step id f)
+      let g := seqAll g (g.dealt - g.committed + 1)
+      runSeq { st with g := g, delOld := delOld } id n fs'
+
+/-- the line `retry.go` classifies a finished `retry()` with (its `state` metric tag), from the slot it filled -/
+def repairState (g : G) (rev : Nat) : String :=
+  match g.slots.find? (·.rev == rev), g.emitted.find? (·.rev == rev) with
+  | some s, _ => if s.valid then "success" else if s.uncertain then "unknown_put" else "failed_put"
+  | none, some _ => "success"
+  | none, none => if g.retryQ.any (·.rev == rev) then "unknown_put" else "failed_put"
+
+def stepBase (st : State) (toks : List String) : State × String :=
   let (pos, opts) := parseOpts toks
   match pos with
   | "cfg" :: _ =>
     let s0 := initSuite "backend" opts
-    ({ g := { cfg := s0.cfg, dealt := s0.b.dealt, committed := s0.b.committed } }, "cfg ok")
+    ({ g := { cfg := s0.cfg, dealt := s0.b.dealt, committed := s0.b.committed },
+       retrySteps := opt opts "retrysteps" == some "1" }, "cfg ok")
   | ["gated", x] => (st, s!"gated {x}")
   | ["start", cid, "list", a, b, r, lim] =>
     -- validation happens before any storage call
@@ -252,5 +293,65 @@ def step (st : State) (toks : List String) : State × String :=
   | "echo" :: _ => (st, " ".intercalate toks)
   | t :: _ => (st, s!"{t} bad-op")
   | [] => (st, "bad-op")
+
+def stepWrite (st : State) (verb : String) (pos : List String) (opts : List (String × String)) : State × String :=
+  match parseReq pos with
+  | none => (st, s!"{verb} bad-op")
+  | some kind =>
+    let id := st.nextId
+    let n := st.g.done.length
+    let g := act st.g (.begin id kind)
+    let st := runSeq { st with g := g, nextId := id + 1 } id 16 (parseFaults opts)
+    match (st.g.done.drop n).find? (·.id == id) with
+    | some d => (st, doneLine st d)
+    | none => (st, s!"{verb} stuck")
+
+def step (st : State) (toks : List String) : State × String :=
+  let (pos, opts) := parseOpts toks
+  match pos with
+  | ["arm", h] => (st, s!"arm {h}")
+  | ["disarm", h] => (st, s!"disarm {h}")
+  | ["await", "retry.step"] =>
+    (st, s!"await retry.step {if st.g.retryQ.isEmpty || st.rStage != 0 then 0 else 1}")
+  | ["retry"] =>
+    if st.g.retryQ.isEmpty || st.rStage != 0 then (st, "retry none")
+    else if st.retrySteps then ({ st with rStage := 1 }, "at R iter")
+    else
+      let f := match parseFaults opts with
+        | f :: _ => f
+        | [] => Fault.none
+      let g := act st.g (.retry f)
+      let g := seqAll g (g.dealt - g.committed + 1)
+      ({ st with g := g }, "retry ok")
+  | ["step", "R"] =>
+    if st.rStage == 1 then
+      let g := act st.g .retryRead
+      match g.retryPc with
+      | some _ => ({ st with g := g, rStage := 2 }, "at R commit")
+      | none =>
+        let g := seqAll g (g.dealt - g.committed + 1)
+        ({ st with g := g, rStage := 0 }, "done R retry unnecessary")
+    else if st.rStage == 2 then
+      let f := match opt opts "f" with
+        | some x => parseFault x
+        | none => Fault.none
+      let rev := (st.g.retryPc.map (·.rev)).getD 0
+      let g := act st.g (.retryCommit f)
+      let g := seqAll g (g.dealt - g.committed + 1)
+      ({ st with g := g, rStage := 0 }, s!"done R retry {repairState g rev}")
+    else (st, "step R no-such-client")
+  | ["watch", id, p, _] =>
+    ({ st with watchers := (widOf id, unhx p, st.g.emitted.length) :: st.watchers.filter (·.1 != widOf id) }, s!"watch {id} ok")
+  | ["drain", id] =>
+    match st.watchers.find? (·.1 == widOf id) with
+    | none => (st, s!"events {id} nowatch")
+    | some (_, pfx, seen) =>
+      let evs := (st.g.emitted.drop seen).filter (fun e => hasPrefix e.key pfx)
+      ({ st with watchers := (widOf id, pfx, st.g.emitted.length) :: st.watchers.filter (·.1 != widOf id) },
+       s!"events {id} {joinOr (evs.map evStr) ","} closed=0")
+  | ["create", _, _] => stepWrite st "create" pos opts
+  | ["update", _, _, _] => stepWrite st "update" pos opts
+  | ["delete", _, _] => stepWrite st "delete" pos opts
+  | _ => stepBase st toks
 
 end KB.Driver.Sched
